@@ -5,6 +5,7 @@
 namespace jv {
 
 Scheduler* g_sched = nullptr;
+void (*g_yield_extra)(void) = nullptr;
 static thread_local int tl_task = -1;
 
 void sched_callback_yield() { if (g_sched && tl_task >= 0) g_sched->yield_point(1); }
@@ -77,5 +78,6 @@ Scheduler::~Scheduler() { for (auto t : tasks) { sem_destroy(&t->sem); delete t;
 
 // H1: the library's weak hook binds to this definition (the executable is linked -rdynamic).
 extern "C" __attribute__((visibility("default"))) void embedded_pairing_verif_yield(void) {
+    if (jv::g_yield_extra) jv::g_yield_extra();
     if (jv::g_sched) jv::g_sched->yield_point(0);
 }
